@@ -1,5 +1,5 @@
 //! wf-rescue — engines for the Rescue hashers and hash padding (C16, C17).
-//!   perm    <hasher> <seed> <n_perm> <n_solo> <out.ndjson>   record permutation / round calls (+ witnesses)
+//!   perm    <hasher> <seed> <class,..> <n_solo> <out.ndjson>   record permutation / round calls (+ witnesses)
 //!   modes   <scenarios.ndjson>                                replay Sponge.tla terms on the real entry points
 //!   distinct <families.ndjson>                                C17: digests of every family member pairwise
 #![allow(clippy::all)]
